@@ -1,0 +1,75 @@
+package keygen
+
+import (
+	"errors"
+	"fmt"
+
+	"github.com/fxamacker/cbor/v2"
+	"github.com/taurusgroup/multi-party-sig/internal/params"
+	"github.com/taurusgroup/multi-party-sig/pkg/math/curve"
+)
+
+func validateConfig(noSetup bool, secretShare curve.Scalar, public curve.Point, chainKey []byte) error {
+	if noSetup || secretShare == nil || public == nil {
+		return errors.New("doerner config: missing fields")
+	}
+	if secretShare.IsZero() {
+		return errors.New("doerner config: secret share is zero")
+	}
+	if public.IsIdentity() {
+		return errors.New("doerner config: public key is the identity")
+	}
+	if len(chainKey) != params.SecBytes {
+		return fmt.Errorf("doerner config: chain key has %d bytes", len(chainKey))
+	}
+	return nil
+}
+
+// Validate checks the rules that every usable ConfigReceiver satisfies: an OT setup, a non-zero
+// secret share, a public key that is not the identity and a chain key of the right length.
+func (c *ConfigReceiver) Validate() error {
+	if c == nil {
+		return errors.New("doerner config: missing fields")
+	}
+	return validateConfig(c.Setup == nil, c.SecretShare, c.Public, c.ChainKey)
+}
+
+// UnmarshalCBOR implements cbor.Unmarshaler. The receiver must have been created with
+// EmptyConfigReceiver. Malformed or invalid data yields an error, never a panic or an invalid config.
+func (c *ConfigReceiver) UnmarshalCBOR(data []byte) (err error) {
+	defer func() {
+		if p := recover(); p != nil {
+			err = fmt.Errorf("doerner config: malformed data: %v", p)
+		}
+	}()
+	// plain has the fields of ConfigReceiver, but not its methods: the default decoding is used.
+	type plain ConfigReceiver
+	if err := cbor.Unmarshal(data, (*plain)(c)); err != nil {
+		return err
+	}
+	return c.Validate()
+}
+
+// Validate checks the rules that every usable ConfigSender satisfies: an OT setup, a non-zero
+// secret share, a public key that is not the identity and a chain key of the right length.
+func (c *ConfigSender) Validate() error {
+	if c == nil {
+		return errors.New("doerner config: missing fields")
+	}
+	return validateConfig(c.Setup == nil, c.SecretShare, c.Public, c.ChainKey)
+}
+
+// UnmarshalCBOR implements cbor.Unmarshaler. The receiver must have been created with
+// EmptyConfigSender. Malformed or invalid data yields an error, never a panic or an invalid config.
+func (c *ConfigSender) UnmarshalCBOR(data []byte) (err error) {
+	defer func() {
+		if p := recover(); p != nil {
+			err = fmt.Errorf("doerner config: malformed data: %v", p)
+		}
+	}()
+	type plain ConfigSender
+	if err := cbor.Unmarshal(data, (*plain)(c)); err != nil {
+		return err
+	}
+	return c.Validate()
+}
